@@ -149,9 +149,16 @@ class PackInfoWrite(Contract):
     props = ("C07", "C08")
     assert_mode = "check"
     opaque_numbers = True
+    assumptions = ("list.count(True) equals the fold rank(n) = number of True among the first n entries, taken at the full length (rank is defined by its one-step unfolding)",)
 
     def setup(self, c):
-        self_ = c.obj("PackInfo", "py7zr.archiveinfo", packpos=c.int("packpos"), numstreams=c.int("numstreams"), packsizes=c.int_list("packsizes"), crcs=c.int_list("crcs"), digestdefined=c.bool_list("digestdefined"), enable_digests=c.bool("enable_digests"))
+        ns, ps, crcs, dd = c.int("numstreams"), c.int_list("packsizes"), c.int_list("crcs"), c.bool_list("digestdefined")
+        if conc(c) and c.bool("shape_inputs"):
+            # sampling only: most draws would miss the precondition (equal lengths, one CRC per defined digest)
+            ns = len(ps)
+            dd = (list(dd) + [bool(x & 1) for x in ps])[:ns]
+            crcs = ([abs(x) % (1 << 32) for x in crcs] + [(x * 2654435761) % (1 << 32) for x in ps])[: sum(1 for b in dd if b)]
+        self_ = c.obj("PackInfo", "py7zr.archiveinfo", packpos=c.int("packpos"), numstreams=ns, packsizes=ps, crcs=crcs, digestdefined=dd, enable_digests=c.bool("enable_digests"))
         return {"self_": self_, "file": c.outstream("file")}
 
     def requires(self, c, self_, file):
@@ -161,7 +168,9 @@ class PackInfoWrite(Contract):
             ("packpos-in-uint64", And(c.f(self_, "packpos") >= 0, c.f(self_, "packpos") < U64)),
             ("numstreams-is-count", And(n == L(ps), n < U64)),
             ("sizes-in-uint64", ForAll(lambda k: And(nth(ps, k) >= 0, nth(ps, k) < U64), guard=lambda k: And(k >= 0, k < L(ps)), over=ps)),
-            ("digest-vectors-cover-streams", Implies(Or(c.f(self_, "enable_digests"), any_true_of(c, dd)), And(L(crcs) == n, L(dd) == n))),
+            # crcs is kept in the form PackInfo._read produces and SevenZipFile.test consumes: one entry per DEFINED digest
+            ("digest-vectors-cover-streams", Implies(Or(c.f(self_, "enable_digests"), any_true_of(c, dd)), And(L(dd) == n, L(crcs) == rank(c, "pk", dd, n)))),
+            ("count-is-the-rank-at-full-length", True if conc(c) else V.SInt(V.uf("count_true", V.seq_sort("bool"), z3.IntSort())(dd.t)) == rank(c, "pk", dd, L(dd))),
             ("crcs-fit-32-bits", ForAll(lambda k: And(nth(crcs, k) >= 0, nth(crcs, k) < (1 << 32)), guard=lambda k: And(k >= 0, k < L(crcs)), over=crcs)),
         ]
 
@@ -205,7 +214,7 @@ class PackInfoWrite(Contract):
             ("all-defined-flag", Implies(withcrc, nth(app, q) == ite(alltrue, 1, 0))),
             ("defined-bits", ForAll(lambda k: SP.bit(app, q + 1, k) == nth(dd, k), guard=lambda k: And(withcrc, Not(alltrue), k >= 0, k < n), over=dd, mod=8)),
             ("padding-bits-zero", ForAll(lambda k: Not(SP.bit(app, q + 1, k)), guard=lambda k: And(withcrc, Not(alltrue), k >= n, k < 8 * ceil8(n)), over=dd, trigger=False, mod=8)),
-            ("crc-of-each-defined-digest", ForAll(lambda k: SP.uint32_le(app, cstart + 4 * rank(c, "pk", dd, k)) == nth(crcs, k), guard=lambda k: And(withcrc, k >= 0, k < n, nth(dd, k)), over=dd)),
+            ("one-crc-per-defined-digest-in-order", ForAll(lambda j: SP.uint32_le(app, cstart + 4 * j) == nth(crcs, j), guard=lambda j: And(withcrc, j >= 0, j < L(crcs)), over=crcs)),
             ("end-marker-without-crc-record", Implies(Not(withcrc), And(L(app) == endS + 1, nth(app, L(app) - 1) == 0))),
             ("end-marker-after-crcs", Implies(withcrc, And(L(app) == endC + 1, nth(app, L(app) - 1) == 0))),
             ("digests-flag", c.f(self_, "enable_digests") == withcrc),
@@ -228,29 +237,8 @@ class PackInfoWrite(Contract):
         def gstep0(c, Lp):
             c.eng.ghost["cutsP"] = snoc(c.eng.ghost["cutsP"], L(app_of(c)))
 
-        def inv1(c, Lp):
-            b = c.bound
-            dd, crcs = c.f(b["self_"], "digestdefined"), c.f(b["self_"], "crcs")
-            app = app_of(c)
-            i = Lp.i
-            cs = Lp.ghost["cstart"]
-            return [
-                ("emitted", And(L(app) == cs + 4 * rank(c, "pk", dd, i), rank(c, "pk", dd, i) >= 0)),
-                ("crc-of-each-defined-digest", ForAll(lambda k: And(SP.uint32_le(app, cs + 4 * rank(c, "pk", dd, k)) == nth(crcs, k), rank(c, "pk", dd, k) >= 0, rank(c, "pk", dd, k) < rank(c, "pk", dd, i)), guard=lambda k: And(k >= 0, k < i, nth(dd, k)), over=dd)),
-            ]
-
-        def init1(c, Lp):
-            Lp.ghost["cstart"] = L(app_of(c))
-            dd = c.f(c.bound["self_"], "digestdefined")
-            return [rank(c, "pk", dd, 0) == 0]
-
-        def step1(c, Lp):
-            dd = c.f(c.bound["self_"], "digestdefined")
-            return [rank_unfold(c, "pk", dd, Lp.i)]
-
         return {
             "archiveinfo:PackInfo.write#loop0": LoopSpec("for-size", inv0, target="size in self.packsizes", unfold_init=init0, ghost_step=gstep0, ghosts=["cutsP"]),
-            "archiveinfo:PackInfo.write#loop1": LoopSpec("for-i", inv1, target="i in range(self.numstreams)", unfold_init=init1, unfold_step=step1),
         }
 
 
